@@ -193,7 +193,7 @@ class RefsWorld:
                 ops.append({'op': 'src', 's': ref['s'], 'p': ref.get('p', 'x'), 'v': rng.randint(11, 15), 'quiet': True})
                 ops.append({'op': 'link', 't': t, 'p': pn, 'ref': ref})
             elif k == 'trigger':
-                ops.append({'op': 'trigger', 't': t, 'p': pn})
+                ops.append({'op': 'trigger', 't': t, 'p': pn, 'over': rng.random() < 0.4})
             elif k == 'ev_bad':
                 ops.append({'op': 'ev_bad', 't': t, 'how': rng.choice(['plain', 'update'])})
             elif k == 'comp_bad':
@@ -621,10 +621,30 @@ class _Run:
             pn = op['p']
             if (ti, pn) in self.pending:
                 return
+            over = None
+            if op.get('over'):
+                # one of the watchers invoked by the trigger overrides ANOTHER linked parameter through update(): an ordinary
+                # assignment, it ends that link (only what param.trigger itself re-assigns leaves links alone)
+                cands = sorted(q for q, r in self.links[ti].items() if q != pn and q in ('a', 'b') and r['k'] not in ('abind', 'nested'))
+                if cands and not self.uctx[ti]:
+                    over = cands[0]
+
+                    def cb(event, _q=over):
+                        if over is not None and not fired:
+                            fired.append(1)
+                            self.attempt(lambda: t.param.update(**{_q: 6}), True, f"update T{ti}.{_q} = 6 from a watcher invoked by param.trigger", ti, _q)
+                    fired = []
+                    w = t.param.watch(cb, [pn], onlychanged=False)
             try:
                 t.param.trigger(pn)
             except Exception as e:      # noqa
                 self.viol('C08.exception', f"trigger of T{ti}.{pn} raised {type(e).__name__}: {str(e)[:120]}")
+            if over is not None:
+                t.param.unwatch(w)
+                if fired:
+                    self.links[ti].pop(over, None)
+                    self.mval[ti][over] = 6
+                    self.out.stats['probe.override_from_watcher_invoked_by_trigger'] += 1
             if pn in self.links[ti]:
                 self.out.stats['probe.trigger_on_linked_parameter'] += 1
                 self.relinked = True
